@@ -246,6 +246,12 @@ def r3_sweep(ctx, chk, rule="C02.3"):
         return
     st = ("elem", F.id)
     call = ("mcall", st, "value_iteration_rewards", (slist,), ())
+    # the kernel may take further arguments (a precision, a tolerance): the call as it is written is the reference
+    actual = {t for u_ in list(F.update.values()) + [e_ for e_ in F.effects] for t in _sub(u_) if t[0] == "mcall" and t[1] == st and t[2] == "value_iteration_rewards"}
+    if len(actual) == 1:
+        a_ = next(iter(actual))
+        if a_[3] and a_[3][0] == slist:
+            call = a_
     fields = [ER, EMR, ERM]
     news = [simp(("idx", call, C(i))) for i in range(3)]
     diffs = [simp(("call", "abs", (mk_add(news[i], negate(("attr", st, fields[i]))),), ())) for i in range(3)]
